@@ -328,17 +328,24 @@ def generate(
 
 
 def _load_yaml_or_json(data: bytes, content_type: Optional[str]) -> Union[dict[str, Any], GeneratorError]:
+    document: Any
     if content_type == "application/json":
         try:
-            return json.loads(data.decode())
+            document = json.loads(data.decode())
         except ValueError as err:
             return GeneratorError(header=f"Invalid JSON from provided source: {err}")
     else:
         try:
             yaml = YAML(typ="safe")
-            return yaml.load(data)
+            document = yaml.load(data)
         except YAMLError as err:
             return GeneratorError(header=f"Invalid YAML from provided source: {err}")
+    if not isinstance(document, dict):
+        return GeneratorError(
+            header="Failed to parse OpenAPI document",
+            detail=f"The document must be a mapping (JSON object), got {type(document).__name__}",
+        )
+    return document
 
 
 def _get_document(*, source: Union[str, Path], timeout: int) -> Union[dict[str, Any], GeneratorError]:
